@@ -1,39 +1,486 @@
 import Anysystem.Proofs.R4Defs
+import Anysystem.Proofs.R4Lemmas
+import Anysystem.Proofs.SnapshotLemmas
+/-!
+# R4 (partial: fault rates zero): one simulator step refines the reference semantics
+
+Property-level theorems (helper lemmas are in `R4Lemmas.lean`, among them `popped_timer_unblocked`: the timer the
+simulator pops is `timerUnblocked` in the related reference state):
+
+* `TimedRel.visible`            — the relation implies equality of the process-visible projection;
+* `sim_step_refines_partial`    — one simulator step that handles an event is a reduced-enabled step of the
+                                   reference semantics (or the event was addressed to a node without handler), and
+                                   the relation is re-established;
+* `timedRel_of_quiet`           — the relation holds between a simulator state with an empty queue and its snapshot;
+* `R4Demo.demo_hyps`, `R4Demo.demo_step` — non-vacuity: a concrete `Sim Nat Ticks` state with one process, one queued
+                                   timer and one queued message satisfies all hypotheses of the main theorem.
+
+Changes with respect to the first draft of the statements (each needed, see the comments at the clauses):
+
+* `TimerGhost` carries the process and timer name; `TimerRel.timers` is `r.timers = ghosts.map toPTimer`, and
+  `ghostsLive` says that the ghost's event is a deliverable timer event of that process and name with
+  `time = setClock + delay`;
+* `NetRel.netCut` is restricted to a source node with handler and an existing target node: the unrestricted clause is
+  false for the snapshot of a quiet state (`R4Demo.netCut_draft_false`); `NetRel.locNodes` (processes are located on
+  existing nodes) is new: without it a message to a process on a non-existing node is in flight for the reference
+  semantics (the node is not crashed) and undeliverable for the simulator;
+* `QueueOk.cancWF` (cancelled ids were handed out) is new: with a stale cancelled id equal to the id counter the next
+  timer event would be born cancelled, pending for the reference semantics and dead for the simulator, so the draft
+  theorem was false; `QueueOk.delaysOk` replaces the hypothesis `hnet` (the delay bounds never change);
+* `TimerRel.ghostBits` and the second half of `hdelays` (delays survive `bits ∘ ofBits`) give, with the monotone `bits`,
+  the monotonicity of `ofBits` on the delays in use; `hadd` (adding a delay is monotone in the clock) is not among the
+  `LawfulTime` laws and is needed to compare `setClock + delay` of two timers;
+* `hlen` asks for four draws per action of one handler call instead of 64 draws: a cross-node send consumes four draws,
+  and an exhausted stream yields a delay the laws say nothing about.
+-/
 namespace Anysystem
+
+set_option linter.unusedSectionVars false
+set_option linter.unusedVariables false
+set_option linter.unusedSimpArgs false
 
 variable {σ T : Type} [TimeOps T]
 
+open Sim
+
 /-- the relation implies equality of the process-visible projection -/
 theorem TimedRel.visible (bits : T → Nat) (q : Sim σ T) (r : RState σ) (gs : List (TimerGhost T))
-    (hr : TimedRel bits q r gs) : visibleEq q r := sorry
+    (hr : TimedRel bits q r gs) : visibleEq q r := by
+  intro n nd p e hn hp
+  exact (hr.proc.procs n p e (by rw [proc?_eq hn]; exact hp)).1
 
 /-- (R4, partial: rates zero) one simulator step that handles an event is a step of the reference semantics that is
     enabled in the reduced sense (modulo the choice among identical in-flight messages: the reference delivers the
     oldest copy of the same message), and the relation is re-established.  A step that pops an event addressed to a
-    node without handler changes nothing process-visible and keeps the relation.  `bits` must be monotone. -/
+    node without handler changes nothing process-visible and keeps the relation.  `bits` must be monotone, adding a
+    delay must be monotone in the clock, the delays the program sets must be non-negative and survive the round trip
+    through the time type, destinations must be known processes, and the draw stream must be long enough for the
+    sends of one handler call (four draws each). -/
 theorem sim_step_refines_partial [LawfulTime T] (bits : T → Nat) (h : Handler σ) (q q' : Sim σ T) (r : RState σ)
     (gs : List (TimerGhost T)) (hr : TimedRel bits q r gs)
     (hbits : ∀ x y : T, TimeOps.le x y = true → bits x ≤ bits y)
+    (hadd : ∀ a b c : T, TimeOps.le a b = true → TimeOps.le (TimeOps.add a c) (TimeOps.add b c) = true)
     (hdelays : ∀ p st i a, a ∈ (h p st i).2 → ∀ name d once, a = .set name d once →
-      TimeOps.le TimeOps.zero (TimeOps.ofBits d : T) = true)
-    (hnet : TimeOps.le TimeOps.zero q.net.minDelay = true ∧ TimeOps.le q.net.minDelay q.net.maxDelay = true)
+      TimeOps.le TimeOps.zero (TimeOps.ofBits d : T) = true ∧ bits (TimeOps.ofBits d : T) = d)
     (hknown : ∀ p st i a, a ∈ (h p st i).2 → ∀ m dst, a = .send m dst → (amGet? dst q.net.procLoc).isSome = true)
-    (hdraws : ∀ d ∈ q.draws, LawfulTime.isDraw d) (hlen : 64 ≤ q.draws.length)
+    (hdraws : ∀ d ∈ q.draws, LawfulTime.isDraw d) (hlen : ∀ p st i, 4 * (h p st i).2.length ≤ q.draws.length)
     (hstep : q.step (liftHandler h) = .ok (true, q')) :
     (∃ gs', TimedRel bits q' r gs') ∨
-    (∃ l r' gs', r.enabledRed .normal l = true ∧ r.step h l = some r' ∧ TimedRel bits q' r' gs') := sorry
+    (∃ l r' gs', r.enabledRed .normal l = true ∧ r.step h l = some r' ∧ TimedRel bits q' r' gs') := by
+  obtain ⟨e, s1, hne, hdel⟩ := step_inv _ q q' hstep
+  have hf : q.events.length < q.events.length + 1 := Nat.lt_succ_self _
+  obtain ⟨f1, f2, f3, f4, f5, f6, f7, f8, f9, f10, f11, f12⟩ := pop_frame hr hf hne
+  have haok : ∀ p st i, ∀ a ∈ (h p st i).2, ActOk bits r.net.procLoc a := by
+    intro p st i a ha
+    cases a with
+    | send m dst => rw [ActOk, hr.net.netLoc]; exact hknown p st i _ ha m dst rfl
+    | loc m => trivial
+    | set name d once => exact hdelays p st i _ ha name d once rfl
+    | cancel name => trivial
+  unfold deliver at hdel
+  by_cases hdst : e.dst ∈ q.handlers
+  · have hc : s1.handlers.contains e.dst = true := by rw [f7]; simpa using hdst
+    simp only [hc, Bool.not_true, Bool.false_eq_true, if_false] at hdel
+    right
+    have hncr : e.dst ∉ r.crashedNodes := fun hcr => ((hr.net.crashed e.dst).1 hcr).2 hdst
+    cases hd : e.data with
+    | msg mid m src sn dst dn =>
+      rw [hd] at hdel
+      simp only at hdel
+      have hrun := onMessage_run _ _ _ _ _ _ _ _ _ hdel
+      obtain ⟨hdn, hld, hls⟩ := hr.queue.msgLoc e f5 mid m src sn dst dn hd
+      have hed : e ∈ q.deliverable := (mem_deliverable q e).2 ⟨f5, hdst⟩
+      have hfm : (⟨m, src, dst, zeroOpts q.net.procLoc r.net.maxDelay src dst⟩ : Flight) ∈ r.flights := by
+        rw [hr.flights.mem_iff, List.mem_filterMap]
+        exact ⟨e, hed, by rw [hd]; rfl⟩
+      obtain ⟨fl, hfl⟩ : ∃ fl : Flight, fl = ⟨m, src, dst, zeroOpts q.net.procLoc r.net.maxDelay src dst⟩ := ⟨_, rfl⟩
+      rw [← hfl] at hfm
+      obtain ⟨g1, g2, g3⟩ := firstIdx_spec fl r.flights hfm
+      have hrel1 := r4_pop_msg hr hf hne hdst hd (r.afterDeliver (firstIdx fl r.flights) fl) rfl rfl rfl rfl
+        (by rw [← hfl]; exact g2)
+      have hrelA := (hrel1.sameView (sameView_log s1 (.recv s1.clock mid sn src e.dst dst m))).sameView
+        (sameView_updProc _ e.dst dst (fun e => { e with log := e.log ++ [⟨s1.clock, .recv m src dst⟩], recv := e.recv + 1 })
+          (fun _ => rfl))
+      -- the process exists on both sides
+      have hex : ∃ pe, s1.proc? e.dst dst = some pe := by
+        unfold onMessage at hdel
+        cases hn : amGet? e.dst s1.nodes with
+        | none => simp [nodeOf, hn] at hdel
+        | some nd =>
+          simp only [nodeOf, hn] at hdel
+          split at hdel
+          · cases hdel
+          · rename_i hhas
+            rw [amHas_eq] at hhas
+            cases hp : amGet? dst nd.procs with
+            | none => simp [hp] at hhas
+            | some pe => exact ⟨pe, by rw [proc?_eq hn]; exact hp⟩
+      obtain ⟨pe, hpe⟩ := hex
+      have hpeq : q.proc? e.dst dst = some pe := by rw [← proc?_of_nodes f9]; exact hpe
+      have hctx : (r.afterDeliver (firstIdx fl r.flights) fl).Ctx e.dst dst := by
+        refine ⟨?_, ?_, hncr⟩
+        · show amGet? dst r.net.procLoc = some e.dst
+          rw [hr.net.netLoc, hdn]; exact hld
+        · show (amGet? dst r.procs).isSome = true
+          rw [(hr.proc.procs e.dst dst pe hpeq).1]; rfl
+      obtain ⟨r', gs', hreact, hfin⟩ := handler_tail h hrelA hctx (by simpa [log, f10] using hdraws)
+        (by simpa [log, f10] using hlen) haok (.msg m src) hrun
+      refine ⟨.deliver (firstIdx fl r.flights), r', gs', ?_, ?_, hfin⟩
+      · -- the delivered copy is the oldest among identical flights
+        show r.oldestIdentical _ = true
+        unfold RState.oldestIdentical
+        rw [g1]
+        simp only
+        rw [List.all_eq_true]
+        intro g hg
+        have hgne := g3 g hg
+        have hgmem : g ∈ r.flights := List.mem_of_mem_take hg
+        rw [hr.flights.mem_iff, List.mem_filterMap] at hgmem
+        obtain ⟨x, _, hxg⟩ := hgmem
+        cases hxd : x.data with
+        | timer p' name' => rw [hxd] at hxg; cases hxg
+        | msg mid' m' src' sn' dst' dn' =>
+          rw [hxd] at hxg
+          simp only [flightOfQ, Option.some.injEq] at hxg
+          subst hxg
+          subst hfl
+          cases hb : (decide (m' = m) && src' == src && dst' == dst) with
+          | false => simp [hb]
+          | true =>
+            simp only [Bool.and_eq_true, decide_eq_true_eq, beq_iff_eq] at hb
+            obtain ⟨⟨rfl, rfl⟩, rfl⟩ := hb
+            exact absurd rfl hgne
+      · show r.step h (.deliver _) = some r'
+        simp only [RState.step, g1]
+        subst hfl
+        exact hreact
+    | timer p name =>
+      rw [hd] at hdel
+      simp only at hdel
+      obtain ⟨nd, e0, hnd, he0, hrun⟩ := onTimer_inv _ _ _ _ _ _ hdel
+      have he0' : s1.proc? e.dst p = some e0 := by rw [proc?_eq hnd]; exact he0
+      obtain ⟨l1, g, l2, hgs, hgid, hgp, hgn, hget, hunb⟩ := popped_timer_unblocked hr hbits hadd hf hne hdst hd
+      obtain ⟨hpend, hrel3⟩ := r4_pop_timer hr hf hne hdst hd he0' hgs hgid
+        (.timerFired s1.clock e.id name e.dst p) s1.clock
+        (r.afterFire l1.length ⟨p, name, g.delay⟩) rfl rfl rfl rfl rfl
+      rw [hpend] at hrun
+      simp only at hrun
+      have hctx : (r.afterFire l1.length ⟨p, name, g.delay⟩).Ctx e.dst p := by
+        have hpeq : q.proc? e.dst p = some e0 := by rw [← proc?_of_nodes f9]; exact he0'
+        refine ⟨?_, ?_, hncr⟩
+        · show amGet? p r.net.procLoc = some e.dst
+          rw [hr.net.netLoc]; exact (hr.proc.procs e.dst p e0 hpeq).2
+        · show (amGet? p r.procs).isSome = true
+          rw [(hr.proc.procs e.dst p e0 hpeq).1]; rfl
+      obtain ⟨r', gs', hreact, hfin⟩ := handler_tail h hrel3 hctx (by simpa [log, f10] using hdraws)
+        (by simpa [log, f10] using hlen) haok (.timer name) hrun
+      refine ⟨.fire l1.length, r', gs', ?_, ?_, hfin⟩
+      · show (r.timerUnblocked l1.length && (Mode.normal == Mode.normal || r.flights.isEmpty)) = true
+        rw [hunb]; rfl
+      · show r.step h (.fire _) = some r'
+        simp only [RState.step, hget]
+        exact hreact
+  · have hc : s1.handlers.contains e.dst = false := by rw [f7]; simpa using hdst
+    simp only [hc, Bool.not_false, if_true] at hdel
+    cases hdel
+    exact Or.inl ⟨gs, pop_undeliverable hr hf hne hdst⟩
+
+/-! ## the relation holds for a freshly built simulator state with an empty queue -/
 
 /-- the snapshot of a related simulator state is the reference state: what `ModelChecker::new` hands to the
     checker is related (`Sim'`, R2) to a reference state with the same flights (as a multiset) and timers -/
-theorem timedRel_of_quiet (bits : T → Nat) (q : Sim σ T) (hq : q.events = []) (hc : q.canceled = [])
+theorem timedRel_of_quiet [LawfulTime T] (bits : T → Nat) (q : Sim σ T) (hq : q.events = []) (hc : q.canceled = [])
     (hrates : q.net.dropRate = TimeOps.zero ∧ q.net.duplRate = TimeOps.zero ∧ q.net.corruptRate = TimeOps.zero)
+    (hdel : TimeOps.le TimeOps.zero q.net.minDelay = true ∧ TimeOps.le q.net.minDelay q.net.maxDelay = true)
     (hpend : ∀ n nd p e, amGet? n q.nodes = some nd → amGet? p nd.procs = some e → e.pending = [])
     (hloc : ∀ n nd p e, amGet? n q.nodes = some nd → amGet? p nd.procs = some e → amGet? p q.net.procLoc = some n)
+    (hlocNodes : ∀ p n, amGet? p q.net.procLoc = some n → amHas n q.nodes = true)
     (hhand : ∀ n, n ∈ q.handlers ↔ (∃ nd, amGet? n q.nodes = some nd ∧ nd.crashed = false))
     (hnodes : (q.nodes.map (·.1)).Nodup) :
     TimedRel bits q
       { procs := q.nodes.flatMap (fun nd => nd.2.procs.map fun pe => (pe.1, ({ st := pe.2.st, outbox := pe.2.outbox } : RProc σ))),
         crashedNodes := (q.nodes.filter (fun nd => !q.handlers.contains nd.1)).map (·.1),
-        net := (snapshotNet bits q) } [] := sorry
+        net := (snapshotNet bits q) } [] := by
+  have hlive : q.live = [] := by unfold live; rw [hq]; rfl
+  have hdeliv : q.deliverable = [] := by unfold deliverable; rw [hlive]; rfl
+  have hzz : TimeOps.lt (TimeOps.zero : T) TimeOps.zero = false := by
+    cases hlt : TimeOps.lt (TimeOps.zero : T) TimeOps.zero with
+    | false => rfl
+    | true =>
+      have := (LawfulTime.lt_iff (TimeOps.zero : T) TimeOps.zero).1 hlt
+      rw [LawfulTime.le_refl] at this; cases this
+  obtain ⟨s1, s2, s3, s4, s5, s6⟩ := disconnectFold_spec ((q.nodes.filter (·.2.crashed)).map (·.1))
+    { dropPos := TimeOps.lt TimeOps.zero q.net.dropRate,
+      duplNonzero := TimeOps.lt TimeOps.zero q.net.duplRate || TimeOps.lt q.net.duplRate TimeOps.zero,
+      corruptPos := TimeOps.lt TimeOps.zero q.net.corruptRate,
+      dropIncoming := q.net.dropIncoming, dropOutgoing := q.net.dropOutgoing,
+      disabledLinks := q.net.disabledLinks, procLoc := q.net.procLoc, maxDelay := bits q.net.maxDelay }
+  obtain ⟨s7, s8⟩ := disconnectFold_more ((q.nodes.filter (·.2.crashed)).map (·.1))
+    { dropPos := TimeOps.lt TimeOps.zero q.net.dropRate,
+      duplNonzero := TimeOps.lt TimeOps.zero q.net.duplRate || TimeOps.lt q.net.duplRate TimeOps.zero,
+      corruptPos := TimeOps.lt TimeOps.zero q.net.corruptRate,
+      dropIncoming := q.net.dropIncoming, dropOutgoing := q.net.dropOutgoing,
+      disabledLinks := q.net.disabledLinks, procLoc := q.net.procLoc, maxDelay := bits q.net.maxDelay }
+  -- membership in the crashed list
+  have hcrashed : ∀ n nd, amGet? n q.nodes = some nd →
+      (n ∈ (q.nodes.filter (·.2.crashed)).map (·.1) ↔ nd.crashed = true) := by
+    intro n nd hn
+    simp only [List.mem_map, List.mem_filter]
+    constructor
+    · rintro ⟨x, ⟨hx, hxc⟩, rfl⟩
+      have := amGet?_of_mem_nodup hnodes (k := x.1) (v := x.2) hx
+      rw [hn] at this
+      rw [Option.some.inj this]; exact hxc
+    · intro hcr; exact ⟨(n, nd), ⟨amGet?_eq_some_mem hn, hcr⟩, rfl⟩
+  have hhand' : ∀ n nd, amGet? n q.nodes = some nd → (n ∈ q.handlers ↔ nd.crashed = false) := by
+    intro n nd hn
+    rw [hhand]
+    constructor
+    · rintro ⟨nd', h1, h2⟩; rw [hn] at h1; rw [Option.some.inj h1]; exact h2
+    · intro h2; exact ⟨nd, hn, h2⟩
+  refine ⟨⟨hrates, ?_, s1, ?_, s8, ?_, hlocNodes⟩, ⟨?_, ?_⟩, ⟨?_, ?_, ?_, hdel, ?_, ?_⟩,
+    ⟨rfl, List.Pairwise.nil, ?_, ?_, ?_, List.Pairwise.nil, ?_, ?_, List.Pairwise.nil⟩, ?_⟩
+  · -- netFlags
+    refine ⟨?_, ?_, ?_⟩
+    · show (snapshotNet bits q).dropPos = false
+      unfold snapshotNet; simp only; rw [s3, hrates.1]; exact hzz
+    · show (snapshotNet bits q).duplNonzero = false
+      unfold snapshotNet; simp only; rw [s7, hrates.2.1, hzz]; rfl
+    · show (snapshotNet bits q).corruptPos = false
+      unfold snapshotNet; simp only; rw [s4, hrates.2.2]; exact hzz
+  · -- netCut
+    intro a b ha hb
+    rw [amHas_eq] at hb
+    cases hgb : amGet? b q.nodes with
+    | none => rw [hgb] at hb; cases hb
+    | some ndb =>
+      obtain ⟨nda, hga, hac⟩ := (hhand a).1 ha
+      have ha' : a ∉ (q.nodes.filter (·.2.crashed)).map (·.1) := by
+        rw [hcrashed a nda hga, hac]; simp
+      have hbm := hcrashed b ndb hgb
+      have hbh := hhand' b ndb hgb
+      show (snapshotNet bits q).pathEnabled a b = _
+      unfold snapshotNet McNet.pathEnabled pathCut
+      simp only
+      rw [s2, Bool.eq_iff_iff]
+      simp only [Bool.and_eq_true, Bool.not_eq_true', List.contains_eq_mem, decide_eq_false_iff_not, s5, s6,
+        Bool.or_eq_false_iff, decide_eq_true_eq, hbm, hbh, not_or]
+      constructor
+      · rintro ⟨⟨⟨h1, _⟩, h2, h3⟩, h4⟩
+        refine ⟨⟨⟨h1, h2⟩, h4⟩, ?_⟩
+        cases hcb : ndb.crashed with
+        | false => rfl
+        | true => exact absurd hcb h3
+      · rintro ⟨⟨⟨h1, h2⟩, h4⟩, h5⟩
+        exact ⟨⟨⟨h1, ha'⟩, h2, by rw [h5]; simp⟩, h4⟩
+  · -- crashed
+    intro n
+    simp only [List.mem_map, List.mem_filter, Bool.not_eq_true', List.contains_eq_mem, decide_eq_false_iff_not]
+    rw [amHas_eq, amGet?_isSome_iff]
+    constructor
+    · rintro ⟨x, ⟨hx, hxh⟩, rfl⟩
+      exact ⟨List.mem_map_of_mem hx, hxh⟩
+    · rintro ⟨hm, hh⟩
+      obtain ⟨x, hx, rfl⟩ := List.mem_map.1 hm
+      exact ⟨x, ⟨hx, hh⟩, rfl⟩
+  · -- procs
+    intro n p e he
+    obtain ⟨nd, hn, hp⟩ := proc?_some he
+    refine ⟨?_, hloc n nd p e hn hp⟩
+    refine flat_lookup q.nodes n p nd e hn hp ?_
+    intro x hx hsome
+    cases hq' : amGet? p x.2.procs with
+    | none => rw [hq'] at hsome; cases hsome
+    | some e' =>
+      have hgx := amGet?_of_mem_nodup hnodes (k := x.1) (v := x.2) hx
+      have h1 := hloc x.1 x.2 p e' hgx hq'
+      have h2 := hloc n nd p e hn hp
+      rw [h1] at h2
+      exact Option.some.inj h2
+  · -- procsBack
+    intro p rp hrp
+    have hm := amGet?_eq_some_mem hrp
+    simp only [List.mem_flatMap, List.mem_map] at hm
+    obtain ⟨x, hx, pe, hpe, hpeq⟩ := hm
+    have hk : (amGet? p x.2.procs).isSome = true := by
+      rw [amGet?_isSome_iff]
+      have : pe.1 = p := by simpa using congrArg Prod.fst hpeq
+      rw [← this]
+      exact List.mem_map_of_mem hpe
+    cases hq' : amGet? p x.2.procs with
+    | none => rw [hq'] at hk; cases hk
+    | some e' =>
+      have hgx := amGet?_of_mem_nodup hnodes (k := x.1) (v := x.2) hx
+      exact ⟨x.1, e', by rw [proc?_eq hgx]; exact hq'⟩
+  · -- queueWF
+    unfold QueueWF; rw [hq]; exact ⟨List.nodup_nil, fun e he => by cases he⟩
+  · unfold ClockOk; rw [hq]; intro e he; cases he
+  · rw [hc]; intro id hid; cases hid
+  · rw [hlive]; intro e he; cases he
+  · rw [hlive]; intro e he; cases he
+  · rw [hdeliv]; intro e he; cases he
+  · intro g hg; cases hg
+  · intro g hg; cases hg
+  · intro g hg; cases hg
+  · -- pendMap
+    intro n p e _ he name id
+    obtain ⟨nd, hn, hp⟩ := proc?_some he
+    rw [hpend n nd p e hn hp, hlive]
+    simp [amGet?]
+  · show List.Perm [] _
+    rw [hdeliv]; exact List.Perm.nil
+
+/-! ## Non-vacuity: a concrete state with one process, one queued timer and one queued message satisfies the
+hypotheses of `sim_step_refines_partial` -/
+namespace R4Demo
+
+open Sim
+
+/-- on a local message: set timer 1 with delay 5 and send a message to itself; otherwise only count -/
+def demoH : Handler Nat := fun _ st i =>
+  match i with
+  | .loc _ => (st + 1, [.set 1 5 false, .send ⟨0, []⟩ 1])
+  | _ => (st + 1, [])
+
+def demoActs : List Action := [.set 1 5 false, .send ⟨0, []⟩ 1]
+
+/-- node 0 (with handler) hosts process 1; empty queue -/
+def q0 : Sim Nat Ticks :=
+  { clock := ⟨0⟩, draws := List.replicate 8 ⟨1⟩,
+    net := { (SimNet.default : SimNet Ticks) with procLoc := [(1, 0)] },
+    nodes := [(0, { skew := ⟨0⟩, procs := [(1, { st := 0 })] })],
+    procNodes := [(1, 0)], handlers := [0] }
+
+/-- the state after process 1 has set its timer and sent itself a message: one queued timer, one queued message -/
+def q1 : Sim Nat Ticks :=
+  match Sim.handleActions 0 1 ⟨0⟩ demoActs q0 with
+  | .ok s => s
+  | .error _ => q0
+
+theorem q1_eq : Sim.handleActions 0 1 ⟨0⟩ demoActs q0 = .ok q1 := rfl
+
+example : q1.events.map (fun e => (e.id, e.time.n, e.data)) = [(0, 5, .timer 1 1), (1, 0, .msg 0 ⟨0, []⟩ 1 0 1 0)] := by decide
+
+def q2 : Sim Nat Ticks :=
+  match q1.step (liftHandler demoH) with
+  | .ok (_, s) => s
+  | .error _ => q1
+
+theorem q2_eq : q1.step (liftHandler demoH) = .ok (true, q2) := rfl
+
+def bitsT : Ticks → Nat := fun x => x.n
+
+/-- the reference state of the quiet state `q0` -/
+def r0 : RState Nat :=
+  { procs := q0.nodes.flatMap (fun nd => nd.2.procs.map fun pe => (pe.1, ({ st := pe.2.st, outbox := pe.2.outbox } : RProc Nat))),
+    crashedNodes := (q0.nodes.filter (fun nd => !q0.handlers.contains nd.1)).map (·.1),
+    net := snapshotNet bitsT q0 }
+
+theorem q0_nodes (n : Nat) (nd : SNode Nat Ticks) (h : amGet? n q0.nodes = some nd) :
+    n = 0 ∧ nd = { skew := ⟨0⟩, procs := [(1, { st := 0 })] } := by
+  simp only [q0, amGet?] at h
+  split at h
+  · exact ⟨by assumption, (Option.some.inj h).symm⟩
+  · cases h
+
+theorem q0_procs (p : Nat) (e : SProc Nat Ticks)
+    (h : amGet? p ([(1, { st := 0 })] : List (Nat × SProc Nat Ticks)) = some e) : p = 1 ∧ e = { st := 0 } := by
+  simp only [amGet?] at h
+  split at h
+  · exact ⟨by assumption, (Option.some.inj h).symm⟩
+  · cases h
+
+theorem rel0 : TimedRel bitsT q0 r0 [] := by
+  refine timedRel_of_quiet bitsT q0 rfl rfl ⟨rfl, rfl, rfl⟩ ⟨rfl, rfl⟩ ?_ ?_ ?_ ?_ (by decide)
+  · intro n nd p e hn hp
+    obtain ⟨rfl, rfl⟩ := q0_nodes n nd hn
+    obtain ⟨rfl, rfl⟩ := q0_procs p e hp
+    rfl
+  · intro n nd p e hn hp
+    obtain ⟨rfl, rfl⟩ := q0_nodes n nd hn
+    obtain ⟨rfl, rfl⟩ := q0_procs p e hp
+    rfl
+  · intro p n h
+    simp only [q0, SimNet.default, amGet?] at h
+    split at h
+    · cases h; rfl
+    · cases h
+  · intro n
+    constructor
+    · intro h
+      have : n = 0 := by simpa [q0] using h
+      subst this
+      exact ⟨_, rfl, rfl⟩
+    · rintro ⟨nd, hn, _⟩
+      obtain ⟨rfl, _⟩ := q0_nodes n nd hn
+      simp [q0]
+
+theorem ctx0 : r0.Ctx 0 1 := ⟨rfl, rfl, by decide⟩
+
+theorem ticks_delay (d : Nat) :
+    TimeOps.le TimeOps.zero (TimeOps.ofBits d : Ticks) = true ∧ bitsT (TimeOps.ofBits d : Ticks) = d := by
+  simp [TimeOps.le, TimeOps.zero, TimeOps.ofBits, bitsT]
+
+/-- **Non-vacuity.**  `q1` — one process, one queued timer (id 0, due at 5) and one queued message (id 1, due at 0) —
+    is related to a reference state, and all hypotheses of `sim_step_refines_partial` hold for the program `demoH`
+    and the step `q1 → q2` (the delivery of the message). -/
+theorem demo_hyps : ∃ r gs,
+    TimedRel bitsT q1 r gs ∧
+    (∀ x y : Ticks, TimeOps.le x y = true → bitsT x ≤ bitsT y) ∧
+    (∀ a b c : Ticks, TimeOps.le a b = true → TimeOps.le (TimeOps.add a c) (TimeOps.add b c) = true) ∧
+    (∀ p st i a, a ∈ (demoH p st i).2 → ∀ name d once, a = .set name d once →
+      TimeOps.le TimeOps.zero (TimeOps.ofBits d : Ticks) = true ∧ bitsT (TimeOps.ofBits d : Ticks) = d) ∧
+    (∀ p st i a, a ∈ (demoH p st i).2 → ∀ m dst, a = .send m dst → (amGet? dst q1.net.procLoc).isSome = true) ∧
+    (∀ d ∈ q1.draws, LawfulTime.isDraw d) ∧ (∀ p st i, 4 * (demoH p st i).2.length ≤ q1.draws.length) ∧
+    q1.step (liftHandler demoH) = .ok (true, q2) ∧ q1.events.length = 2 := by
+  obtain ⟨gs, hrel⟩ := acts_sim (bits := bitsT) (n := 0) (p := 1) (time := (⟨0⟩ : Ticks)) demoActs q0 r0 [] [] rel0 ctx0
+    (by intro d hd; simp only [q0, List.mem_replicate] at hd; rw [hd.2]; show (1 : Nat) < 1000; omega)
+    (by decide)
+    (by
+      intro a ha
+      simp only [demoActs, List.mem_cons, List.not_mem_nil, or_false] at ha
+      rcases ha with rfl | rfl
+      · exact ticks_delay 5
+      · show (amGet? 1 r0.net.procLoc).isSome = true
+        rfl)
+    q1_eq
+  refine ⟨_, gs, hrel, ?_, ?_, ?_, ?_, ?_, ?_, q2_eq, rfl⟩
+  · intro x y h; simpa [TimeOps.le, bitsT] using h
+  · intro a b c h
+    simp only [TimeOps.le, TimeOps.add, decide_eq_true_eq] at h ⊢
+    omega
+  · intro p st i a _ name d once _; exact ticks_delay d
+  · intro p st i a ha m dst hm
+    subst hm
+    cases i with
+    | loc m' =>
+      simp only [demoH, List.mem_cons, List.not_mem_nil, or_false] at ha
+      rcases ha with ha | ha
+      · cases ha
+      · cases ha; rfl
+    | msg m' src => simp [demoH] at ha
+    | timer name => simp [demoH] at ha
+  · intro d hd
+    have : q1.draws = List.replicate 8 ⟨1⟩ := rfl
+    rw [this, List.mem_replicate] at hd
+    rw [hd.2]; show (1 : Nat) < 1000; omega
+  · intro p st i
+    have : q1.draws.length = 8 := rfl
+    rw [this]
+    cases i <;> simp [demoH]
+
+/-- the main theorem applied to the demo step: the delivery of the message is a reduced-enabled reference step -/
+theorem demo_step : ∃ r, (∃ gs', TimedRel bitsT q2 r gs') ∨
+    (∃ l r' gs', r.enabledRed .normal l = true ∧ r.step demoH l = some r' ∧ TimedRel bitsT q2 r' gs') := by
+  obtain ⟨r, gs, h1, h2, h3, h4, h5, h6, h7, h8, _⟩ := demo_hyps
+  exact ⟨r, sim_step_refines_partial bitsT demoH q1 q2 r gs h1 h2 h3 h4 h5 h6 h7 h8⟩
+
+/-- the draft clause `netCut` (for all `a b`, without the restriction to nodes) is false for the snapshot of the
+    quiet state `q0`: node 7 does not exist, the snapshot does not cut the path from it, but it has no handler -/
+theorem netCut_draft_false :
+    (snapshotNet bitsT q0).pathEnabled 7 0 ≠ (!(q0.pathCut 7 0) && q0.handlers.contains 7 && q0.handlers.contains 0) := by
+  decide
+
+end R4Demo
 
 end Anysystem
